@@ -454,6 +454,12 @@ func runC12(w *W) {
 	so := tgenOpts{MaxStructs: 1 + t.Intn(3, "sch.structs"), MaxFields: 2 + t.Intn(6, "sch.fields"), MaxDepth: 1 + t.Intn(3, "sch.depth"),
 		BigIDs: t.Chance(1, 3, "sch.bigids"), Aliases: t.Chance(1, 3, "sch.alias"), Requiredness: t.Chance(1, 2, "sch.req"), Recursive: t.Chance(1, 4, "sch.rec"), Defaults: t.Chance(1, 3, "sch.defaults")}
 	so.QueryAnno = t.Chance(1, 2, "sch.queryanno")
+	// base64 binaries are the precondition of an open native finding (decode past the output buffer's
+	// capacity, a silent heap overflow that makes results depend on what lies behind the buffer): they are
+	// generated in 1/8 of the worlds only, and there every output buffer ends at an unmapped page
+	so.NoBinary = !t.Chance(1, 8, "sch.binary")
+	w.World.GuardGrowth = !so.NoBinary
+	w.worldFacts = map[string]string{"has_base64": fmt.Sprint(!so.NoBinary)}
 	sch := genSchema(t, so)
 	po := thrift.Options{UseDefaultValue: so.Defaults}
 	sh := &c12Shared{rootT: sch.Root}
